@@ -271,6 +271,7 @@ def e1_writer_faults(ctx):
     tlc_mc(ctx, "WriterFaults", "MC_WriterFaults_dev_PollAfterDataNil.cfg", workers=4, expect_violation="NoSilentSuccess")
     tlc_mc(ctx, "WriterFaults", "MC_WriterFaults_dev_SkipFlushWhenFull.cfg", workers=4, expect_violation="NoSilentSuccess")
     tlc_mc(ctx, "WriterFaults", "MC_WriterFaults_dev_OverwriteErr.cfg", workers=4, expect_violation="NoSilentSuccess")
+    tlc_mc(ctx, "WriterFaults", "MC_WriterFaults_dev_ErrOnlyIfShort.cfg", workers=4, expect_violation="FailingWriterReported")
 
 
 def e1_builder_pool(ctx):
@@ -352,6 +353,7 @@ def plan_C03(ctx):
     run_family(ctx, "fault_merge", n_of(ctx, 64, 512), perfile=16)               # one read of a file-backed input fails while the merge runs
     run_family(ctx, "merge_chain", n_of(ctx, 20, 300), perfile=10, seed_off=2)
     run_family(ctx, "card_boundary", n_of(ctx, 6, 24), perfile=1, seed_off=4)      # live cardinality on a chunk-size step, deleted 1-hit inputs
+    run_family(ctx, "dv_walk", n_of(ctx, 8, 100), perfile=2, seed_off=5)           # a >1024-document input with doc-value chunk gaps as the SECOND input
     canary(ctx)
 
 
@@ -370,6 +372,7 @@ def plan_C04(ctx):
     run_family(ctx, "conc_write", n_of(ctx, 16, 240), perfile=4)               # writers side by side (one-byte merge buffers, slow destinations)
     run_family(ctx, "card_boundary", n_of(ctx, 6, 24), perfile=1, seed_off=3)
     run_family(ctx, "big_stored", n_of(ctx, 2, 12), perfile=1)                      # megabytes of stored values inside one 128-document block
+    run_family(ctx, "fault_load", n_of(ctx, 10, 200), perfile=10, seed_off=2)       # a Load that met a transient read failure and still succeeded
     canary(ctx)
 
 
@@ -383,6 +386,7 @@ def plan_C06(ctx):
     run_family(ctx, "stored_sweep", n_of(ctx, 80, 400), perfile=5)
     run_family(ctx, "extremes", n_of(ctx, 3, 36), perfile=1, seed_off=5)         # stored values of tens of kilobytes
     run_family(ctx, "big_stored", n_of(ctx, 3, 12), perfile=1, seed_off=1)          # runs, incompressible values, one block beyond 64 MiB
+    run_family(ctx, "fault_merge", n_of(ctx, 32, 128), perfile=16, seed_off=2, env_extra={"VERIF_INLINE": "1"})   # overlapping visits after an abandoned merge (same goroutine: same pool)
     run_family(ctx, "copy_boundary", n_of(ctx, 6, 60), perfile=2)                 # output blocks ending inside a copied source block
     run_family(ctx, "huge", n_of(ctx, 2, 8), perfile=1, seed_off=4)
     canary(ctx)
@@ -396,6 +400,7 @@ def plan_C07(ctx):
     run_family(ctx, "dv_small", n_of(ctx, 200, 4000), perfile=n_of(ctx, 20, 40))
     run_family(ctx, "dv_walk", n_of(ctx, 24, 300), perfile=2)
     run_family(ctx, "big_dv", n_of(ctx, 2, 8), perfile=1)                           # one doc-value chunk beyond 16 MiB
+    run_family(ctx, "fault_load", n_of(ctx, 20, 300), perfile=10)                   # every read of Load as a transient failure point
     run_family(ctx, "dv_merge_order", n_of(ctx, 8, 80), perfile=2, seed_off=1)
     run_family(ctx, "fault_dv_partial", n_of(ctx, 256, 1024), perfile=64, seed_off=1)   # readers of several fields out of step after a failed load
     require_cov(ctx, "tag:dv_chunk_gap")
@@ -566,10 +571,11 @@ def plan_C19(ctx):
     run_family(ctx, "fault_read", n_of(ctx, 150, 3000), perfile=n_of(ctx, 15, 40))
     run_family(ctx, "fault_read_big", n_of(ctx, 8, 120), perfile=1)
     run_family(ctx, "fault_merge", n_of(ctx, 32, 256), perfile=16, seed_off=1)
+    run_family(ctx, "fault_load", n_of(ctx, 20, 300), perfile=10, seed_off=1)       # every read of Load as a transient failure point
     run_family(ctx, "fault_dv_partial", n_of(ctx, 512, 2048), perfile=64)                           # every read of a chunk load as the failure point, both directions
     run_family(ctx, "fault_transient", n_of(ctx, 48, 480), perfile=6)                               # one failing read, then healthy storage
     run_family(ctx, "fault_transient", n_of(ctx, 24, 240), perfile=6, seed_off=1, env_extra={"VERIF_INLINE": "1"})   # same goroutine: same pooled scratch
-    require_cov(ctx, "tag:fst_failed", "fsweep_once", "fsweep_after")
+    require_cov(ctx, "tag:fst_failed", "fsweep_once", "fsweep_after", "lsweep_once")
 
 
 PLANS = {
